@@ -9,10 +9,17 @@ import (
 	"github.com/protolambda/zrnt/eth2/beacon/common"
 )
 
-// The tests in this file reproduce suspected zrnt defects that the harness ran into or
-// can reach. They are diagnostics (plain Go re-computations of a consensus-spec
-// formula), NOT verdicts - the verdict belongs to the TLA+ checks. They are skipped
-// unless VERIF_REPRO=1.
+// The tests in this file are about zrnt defects the harness ran into or can reach.
+// They are diagnostics (plain Go re-computations of a consensus-spec formula), NOT
+// verdicts - the verdict belongs to the TLA+ checks. They are skipped unless
+// VERIF_REPRO=1.
+//
+//   - TestReproEjectionExitQueue, TestReproStaleSyncCommitteeCache and
+//     TestReproHonestSyncAggregateRejected are REGRESSION tests of defects that were repaired
+//     in /repo (fix: commits 7021aea, ffca285): they pass on the repaired tree, fail if the
+//     defect returns, and guard against vacuity (they insist on having reached the
+//     situation in which the old code went wrong).
+//   - TestReproCommitteeCountPanic reproduces an open oddity and still fails.
 func reproEnabled(t *testing.T) {
 	if os.Getenv("VERIF_REPRO") == "" {
 		t.Skip("set VERIF_REPRO=1 to run the reproductions")
@@ -57,7 +64,52 @@ func specEjectionExitEpochs(spec *common.Spec, vals []common.FlatValidator, curr
 	return out
 }
 
-// TestReproEjectionExitQueue: DESIGN §10 item 11. phase0.ComputeRegistryProcessData keeps
+// buggyEjectionExitEpochs is the pre-fix behaviour of phase0.ComputeRegistryProcessData +
+// the ejection loop: the churn counter is not reset when a later exit epoch is found.
+// Only used to recognise histories in which the old code would have deviated.
+func buggyEjectionExitEpochs(spec *common.Spec, vals []common.FlatValidator, current common.Epoch) map[common.ValidatorIndex]common.Epoch {
+	active := uint64(0)
+	for i := range vals {
+		if vals[i].IsActive(current) {
+			active++
+		}
+	}
+	limit := spec.GetChurnLimit(active)
+	end := spec.ComputeActivationExitEpoch(current)
+	churn := uint64(0)
+	for i := range vals {
+		e := vals[i].ExitEpoch
+		if e == FarFuture {
+			continue
+		}
+		if e > end {
+			end = e
+		}
+		if e == end {
+			churn++
+		}
+	}
+	if churn >= limit {
+		end++
+		churn = 0
+	}
+	out := map[common.ValidatorIndex]common.Epoch{}
+	for i := range vals {
+		v := &vals[i]
+		if v.IsActive(current) && v.EffectiveBalance <= spec.EJECTION_BALANCE && v.ExitEpoch == FarFuture {
+			out[common.ValidatorIndex(i)] = end
+			churn++
+			if churn >= limit {
+				churn = 0
+				end++
+			}
+		}
+	}
+	return out
+}
+
+// TestReproEjectionExitQueue (regression, repaired by "fix: registry updates count
+// exit-queue churn per exit epoch"): DESIGN §10 item 11. phase0.ComputeRegistryProcessData keeps
 // counting churn across different exit epochs (the counter is not reset when a later
 // exit epoch is found), so an ejection that happens while the exit queue spans several
 // epochs is pushed one epoch further than the spec's initiate_validator_exit does.
@@ -86,7 +138,7 @@ func TestReproEjectionExitQueue(t *testing.T) {
 			return c, res, err
 		}})
 	}
-	deviations, ejections := 0, 0
+	deviations, ejections, sensitive := 0, 0, 0
 	for _, j := range jobs {
 		c, res, err := j.run()
 		if err != nil {
@@ -107,6 +159,11 @@ func TestReproEjectionExitQueue(t *testing.T) {
 				}
 				before := cur.Validators()
 				want := specEjectionExitEpochs(spec, before, e)
+				for vi, b := range buggyEjectionExitEpochs(spec, before, e) {
+					if want[vi] != b {
+						sensitive++
+					}
+				}
 				if err := cur.Advance(next); err != nil {
 					t.Fatal(err)
 				}
@@ -122,9 +179,12 @@ func TestReproEjectionExitQueue(t *testing.T) {
 			}
 		}
 	}
-	t.Logf("%d ejections observed, %d with an exit epoch different from the spec", ejections, deviations)
+	t.Logf("%d ejections observed, %d of them in a situation where the pre-fix code deviated, %d with an exit epoch different from the spec", ejections, sensitive, deviations)
 	if deviations > 0 {
-		t.Errorf("zrnt deviates from process_registry_updates/initiate_validator_exit in %d ejections", deviations)
+		t.Errorf("zrnt deviates from process_registry_updates/initiate_validator_exit in %d ejections (defect §10.11 is back?)", deviations)
+	}
+	if sensitive == 0 {
+		t.Errorf("vacuous: no ejection happened while the exit queue spanned several epochs with a partly filled last epoch")
 	}
 }
 
@@ -174,7 +234,9 @@ func stateSyncIndices(s *StateCtx) []common.ValidatorIndex {
 	return out
 }
 
-// TestReproStaleSyncCommitteeCache (found by builder-beacon): ProcessSlots hands the
+// TestReproStaleSyncCommitteeCache (regression; found by builder-beacon, repaired by "fix:
+// epochs context rotates its sync committees when the state is wrapped for fork
+// upgrades"). Before the fix: ProcessSlots hands the
 // *beacon.StandardUpgradeableBeaconState wrapper to EpochsContext.RotateEpochs, whose
 // `state.(SyncCommitteeBeaconState)` assertion fails on the wrapper (it only promotes the
 // methods of common.BeaconState). The epochs context therefore never rotates its sync
@@ -188,12 +250,17 @@ func TestReproStaleSyncCommitteeCache(t *testing.T) {
 		t.Fatal(err)
 	}
 	// plain zrnt: ProcessSlots over several sync committee periods (period = 2 epochs = 8 slots)
-	stale := 0
+	stale, changes := 0, 0
+	var last []common.ValidatorIndex
 	for slot := common.Slot(4); slot <= 40; slot += 4 {
 		if err := common.ProcessSlots(context.Background(), spec, c.Epc, c.State, slot); err != nil {
 			t.Fatal(err)
 		}
 		inState := stateSyncIndices(c.StateCtx)
+		if last != nil && !sameIndices(last, inState) {
+			changes++
+		}
+		last = inState
 		inEpc := c.Epc.CurrentSyncCommittee.Indices
 		same := len(inState) == len(inEpc)
 		for i := range inState {
@@ -205,19 +272,35 @@ func TestReproStaleSyncCommitteeCache(t *testing.T) {
 		}
 	}
 	if stale > 0 {
-		t.Errorf("epochs context sync committee differs from the state's in %d of 10 epochs", stale)
+		t.Errorf("epochs context sync committee differs from the state's in %d of 10 epochs (stale cache defect is back?)", stale)
+	}
+	if changes < 3 {
+		t.Errorf("vacuous: the state's sync committee changed only %d times", changes)
 	}
 }
 
-// TestReproHonestSyncAggregateRejected: consequence of the stale cache on block
-// validity. With the compensation switched off, a block whose sync aggregate is signed
+// TestReproHonestSyncAggregateRejected (regression): consequence of the stale cache on
+// block validity. Before the fix, with the compensation switched off, a block whose sync aggregate is signed
 // by state.current_sync_committee (= valid per the consensus spec) is rejected by zrnt
 // once the state's committee has rotated away from the one cached at the fork.
 func TestReproHonestSyncAggregateRejected(t *testing.T) {
 	reproEnabled(t)
 	c := newChain(t, PresetS1, Forks(1, FarFuture, FarFuture, FarFuture), nil)
-	c.CompensateSyncCache = false
-	for s := common.Slot(1); s <= 24; s++ {
+	c.CompensateSyncCache = false // zrnt unmodified (also the default)
+	changes := 0
+	var last []common.ValidatorIndex
+	defer func() {
+		if !t.Failed() && changes < 3 {
+			t.Errorf("vacuous: the state's sync committee changed only %d times", changes)
+		}
+	}()
+	for s := common.Slot(1); s <= 48; s++ {
+		if cur := c.SyncCommittee(); cur != nil {
+			if last != nil && !sameIndices(last, cur) {
+				changes++
+			}
+			last = cur
+		}
 		if _, err := c.ProduceAndApply(BlockPlan{Slot: s}); err != nil {
 			t.Logf("state committee %v, zrnt's cached committee %v", must(c.PreState(s)).SyncCommittee(), must(c.PreState(s)).SyncCommitteeCached())
 			t.Fatalf("slot %d (epoch %d): zrnt rejects a block with a spec-valid sync aggregate: %v", s, s/4, err)
